@@ -308,7 +308,11 @@ def ka_log(x, base):
         raise KaRuntimeError(f"Non-positive value passed to log: {x}")
     if dispatch("<=", (base, 0)) or dispatch("==", (base, 1)):
         raise KaRuntimeError(f"Base of log must be positive and not 1, was: {base}")
-    return math.log(x, base)
+    try:
+        return math.log(x, base)
+    except ValueError:
+        # A positive fraction can be too small for a float (it converts to 0.0).
+        raise KaRuntimeError(f"Argument of log is too close to zero to be represented: {x}, base {base}")
 
 def ka_sqrt(x):
     if dispatch("<", (x, 0)):
